@@ -16,6 +16,8 @@ EXPLANATION = (
 
 def run(ctx):
     R.rule_tool_formatter(ctx)
+    R.rule_write_after_render(ctx)
+    R.rule_directive_scope(ctx)
     R.rule_arm_printers(ctx, want_anchor=False, want_boundary=True)
     R.rule_literal_escapes(ctx)
     R.rule_exists_parens(ctx)
